@@ -104,8 +104,8 @@ PROPS = {
              assumptions=DISP_AS, partial="panic-freedom is decided on explored inputs (inherits C15/C17/C18)"),
     "C20": P([], tb=["T3 translator translate/wiring.py", "pyo3 0.17 argument extraction / IntoPy / panic trapping: assumed, observed by py/c20_probe.py on CPython with the cdylib built from the current tree"],
              assumptions=["CPython 3.11 available as python3"], partial="pyo3 is not modelled: the theorems are about the declarations, the behaviour is observed", extra=[pyprobe]),
-    "C06": P(["parse", "eval"], tb=PARSE_TB, assumptions=["user-registered names are ASCII words without a case-insensitive nan/inf prefix (CtxOK); see DESIGN C06"],
-             partial=""),
+    "C06": P(["parse", "eval"], tb=PARSE_TB, assumptions=["user-registered names are ASCII words not EQUAL (case-insensitively) to nan or inf (CtxOK'); names that merely start with such a word are covered since repair bcc2eb4"],
+             partial="accepted_iff_prints: under CtxOK' a text compiles to a tree iff it is a string of the grammar denoting that tree (both directions, all strings)"),
     "C10": P(["quad1d", "quad2d"],
              tb=QUAD_TB, assumptions=QUAD_AS,
              partial="non-negativity of the estimate and 'NaN sample never ok' are arithmetic facts: proved in exact arithmetic / under NaN-absorption laws, explored at Float"),
@@ -168,7 +168,7 @@ LEVEL_TEXT = {
         "technique": "exhaustive enumeration with exact oracle + Lean local lemmas",
     },
     "C06": {
-        "text": "Tie theorems (by decide on regenerated data): the operator tags, or_else order, allow_neg arguments, '^ before **', negation-last, left folds, bracket flags and residue checks of parsing.rs are those of the model; both default contexts bind every name n to AD::n / f64::n. parse_print (when present in Thm/C06Print): every string of the grammar Spec/Grammar.lean compiles to the tree it denotes. Model vs implementation: the actual tree is read back through compile_expression::<I,Sym> and compared on grammar-directed renderings, exhaustive token strings, mutations, Unicode; numeric eval at f64 and AD compared bit-for-bit with the model and with a reference evaluator of the conventional tree.",
+        "text": "Tie theorems (by decide on regenerated data): the operator tags, or_else order, allow_neg arguments, '^ before **', negation-last, left folds, bracket flags and residue checks of parsing.rs are those of the model; both default contexts bind every name n to AD::n / f64::n. parse_print / accepted_iff_prints (Thm/C06Print): under CtxOK' (no registered name equals inf or nan) a text compiles to a tree iff it is a string of the grammar Spec/Grammar.lean denoting that tree; info_plus_one is the kernel-checked witness of repair bcc2eb4. Model vs implementation: the actual tree is read back through compile_expression::<I,Sym> and compared on grammar-directed renderings, exhaustive token strings, mutations, Unicode; numeric eval at f64 and AD compared bit-for-bit with the model and with a reference evaluator of the conventional tree.",
         "note": "Trusts: Lean kernel, translators T4/T5, nom re-implementation, harness. Structural property: no floating point involved in the tree; evaluation compares bits.",
         "technique": "Lean 4 proof over an executable parser model + symbolic-tree differential correspondence",
     },
